@@ -73,7 +73,7 @@ pub fn spec() -> PropSpec {
             PropCheck::new("strict-decode", |ctx| {
                 let cfg = SeqCfg { max_ops: if ctx.tier == Tier::Thorough { 40 } else { 12 }, ..SeqCfg::DEFAULT };
                 gen::msg_seq(cfg).prop_map(|seq| Case { seq }).boxed()
-            }, 15_000, 500_000, eval),
+            }, 200_000, 5_000_000, eval),
             EnumCheck::new("large", false, large_cases, eval),
         ],
     }
